@@ -388,7 +388,7 @@ async fn system_sweep(out: &mut Out, rng: &mut Rng) {
         out.count(&format!("sys:variant:{}", name));
         let _ = a.execute(c.clone()).await;
         hist.push(name.to_string());
-        let known = matches!(c, Command::Set { .. } | Command::Del(_) | Command::Incr(_) | Command::Decr(_) | Command::IncrBy(..) | Command::DecrBy(..) | Command::Append(..) | Command::GetSet(..) | Command::HSet(..) | Command::HDel(..) | Command::HIncrBy(..));
+        let known = matches!(c, Command::MSet(_) | Command::Set { .. } | Command::Del(_) | Command::Incr(_) | Command::Decr(_) | Command::IncrBy(..) | Command::DecrBy(..) | Command::Append(..) | Command::GetSet(..) | Command::HSet(..) | Command::HDel(..) | Command::HIncrBy(..));
         for d in arx.drain() {
             if !known {
                 out.violation(&format!("C08:unexpected-delta:{}", name), "a command the recorder is not known to replicate shipped a delta", json!({"history": hist.clone(), "key": d.key}));
@@ -1031,7 +1031,7 @@ async fn system_history(out: &mut Out, rng: &mut Rng, corpus: Option<u8>) {
                             4 => Command::ConfigSet("maxmemory".into(), "0".into()),
                             5 => Command::Select(0),
                             6 => Command::DbSize,
-                            _ => Command::MSet(vec![(rng.pick(&pool).clone(), SDS::new(val(rng)))]),
+                            _ => Command::MSetNx(vec![(rng.pick(&pool).clone(), SDS::new(val(rng)))]),
                         })
                     } else {
                         Pre::L(gen_local(rng, &pool))
